@@ -88,7 +88,115 @@ func gen(r *vh.Rand, tier string, n int, emit func(vh.Case)) {
 	}
 }
 
+// cidLine declares pool CID k of the given kind/size with the parameters observed on the real CID.
+func cidLine(k int, kind string, size int) string {
+	blk := makeBlock(k, kind, size)
+	return fmt.Sprintf("cid %d %s %d %d %d", k, kind, size, blk.Cid().ByteLen(), bsmsg.BlockPresenceSize(blk.Cid()))
+}
+
+// genOverflowProfile: a FULL want-list whose m >= 2 lowest-priority wants have no local block (adjacent at the
+// start of handleOverflow's ascending list) and whose other wants have blocks, then one message with more
+// newcomers (all with blocks) than block-less wants: the first loop evicts the block-less wants, the second
+// loop must go on with the lowest-priority wants that have blocks.
+func genOverflowProfile(r *vh.Rand, id int) vh.Case {
+	c := vh.Case{ID: strconv.Itoa(id)}
+	limit := r.Range(3, 7)
+	m := r.Range(2, limit-1)  // block-less existing wants
+	nn := r.Range(m+1, limit) // newcomers
+	ncid := limit + nn + r.Intn(2)
+	c.Ops = append(c.Ops, fmt.Sprintf("cfg %d %d %d %d %d %d %d", limit, vh.Pick(r, []int{0, 5, 1024}), r.Intn(2), vh.Pick(r, []int{8, 80, 16384}), 0, r.Range(0, 8), r.Range(1, 16)))
+	for k := 0; k < ncid; k++ {
+		c.Ops = append(c.Ops, cidLine(k, "n", vh.Pick(r, []int{3, 8, 10, 20, 30})))
+	}
+	// existing wants 0..limit-1: ascending priorities (sometimes with ties), the m lowest without block
+	prio := make([]int, limit)
+	p := r.Range(-1, 2)
+	for k := range prio {
+		prio[k] = p
+		if !r.Chance(1, 5) {
+			p += r.Range(1, 2)
+		}
+	}
+	for k := m; k < limit+nn; k++ {
+		c.Ops = append(c.Ops, fmt.Sprintf("add %d", k))
+	}
+	ty := func() string { return vh.Pick(r, []string{"B", "B", "H"}) }
+	var es []string
+	for _, k := range shuffled(r, limit) {
+		es = append(es, fmt.Sprintf("%d/%d/%s/0/%d", k, prio[k], ty(), r.Intn(2)))
+	}
+	c.Ops = append(c.Ops, "msg 0 0 "+strings.Join(es, " "))
+	if r.Chance(1, 3) {
+		c.Ops = append(c.Ops, vh.Pick(r, []string{"drain", "msg 1 0 0/3/B/0/1", "rm " + strconv.Itoa(limit-1)}))
+	}
+	// newcomers: mostly at least as important as every existing want, sometimes in between
+	top := prio[limit-1]
+	es = nil
+	for j := 0; j < nn; j++ {
+		np := top + r.Range(0, 6)
+		if r.Chance(1, 6) {
+			np = prio[r.Intn(limit)]
+		}
+		es = append(es, fmt.Sprintf("%d/%d/%s/0/%d", limit+j, np, ty(), r.Intn(2)))
+	}
+	c.Ops = append(c.Ops, "msg 0 0 "+strings.Join(es, " "))
+	c.Ops = append(c.Ops, "drain")
+	return c
+}
+
+func shuffled(r *vh.Rand, n int) []int {
+	perm := make([]int, n)
+	for j := range perm {
+		perm[j] = j
+	}
+	for j := n - 1; j > 0; j-- {
+		q := r.Intn(j + 1)
+		perm[j], perm[q] = perm[q], perm[j]
+	}
+	return perm
+}
+
+// genUpgradeProfile: want-have c (block larger than the replace size, so a HAVE is sent); the HAVE is popped;
+// the peer upgrades to want-block c BEFORE the HAVE is acked; ack; the block is deleted before the block task is
+// popped (DONT_HAVE or nothing is sent); that envelope is acked; the block is stored again (+ NotifyNewBlocks):
+// the want-block is still on the want-list and must now be served.
+func genUpgradeProfile(r *vh.Rand, id int) vh.Case {
+	c := vh.Case{ID: strconv.Itoa(id)}
+	limit := r.Range(2, 6)
+	sdh := r.Intn(2)
+	c.Ops = append(c.Ops, fmt.Sprintf("cfg %d %d %d %d %d %d %d", limit, vh.Pick(r, []int{5, 10}), 1, 16384, 0, r.Range(1, 8), r.Range(1, 16)))
+	c.Ops = append(c.Ops, cidLine(0, "n", vh.Pick(r, []int{15, 20, 30, 60})), cidLine(1, "n", 8), cidLine(2, "n", 30))
+	p := r.Intn(3)
+	noise := func() {
+		if r.Chance(1, 3) {
+			c.Ops = append(c.Ops, vh.Pick(r, []string{"add 1", "add 2", fmt.Sprintf("msg %d 0 1/2/B/0/1", (p+1)%3), fmt.Sprintf("msg %d 0 2/1/H/0/0", p), "rm 2"}))
+		}
+	}
+	c.Ops = append(c.Ops, "add 0")
+	noise()
+	c.Ops = append(c.Ops, fmt.Sprintf("msg %d 0 0/%d/H/0/%d", p, r.Range(0, 5), sdh))
+	c.Ops = append(c.Ops, "pop")
+	c.Ops = append(c.Ops, fmt.Sprintf("msg %d 0 0/%d/B/0/%d", p, r.Range(0, 5), sdh))
+	c.Ops = append(c.Ops, "ack 0")
+	if r.Chance(1, 2) {
+		c.Ops = append(c.Ops, "rm 0", "pop")
+		if r.Chance(3, 4) {
+			c.Ops = append(c.Ops, "ack 0")
+		}
+		noise()
+		c.Ops = append(c.Ops, "add 0")
+	}
+	c.Ops = append(c.Ops, "drain")
+	return c
+}
+
 func genCase(r *vh.Rand, tier string, id int) vh.Case {
+	switch r.Intn(16) {
+	case 0, 1:
+		return genOverflowProfile(r, id)
+	case 2:
+		return genUpgradeProfile(r, id)
+	}
 	c := vh.Case{ID: strconv.Itoa(id)}
 	limit := r.Range(1, 4)
 	switch r.Intn(6) {
@@ -264,8 +372,9 @@ type st struct {
 	sawPresent  map[[2]int]bool
 	sentAnyNT   bool
 	overflowed  bool
-	truncRisk   map[int]bool    // the queue bound may have dropped pushed tasks of this peer
-	lostRisk    map[[2]int]bool // block (re-)added while a DONT_HAVE sent in place of the block was still un-acked
+	truncRisk   map[int]bool                          // the queue bound may have dropped pushed tasks of this peer
+	prevLedger  map[peer.ID]map[cid.Cid]vd.VerifEntry // ledger after the previous op
+	lostRisk    map[[2]int]bool                       // block (re-)added while a DONT_HAVE sent in place of the block was still un-acked
 	fullCleared bool
 }
 
@@ -385,6 +494,25 @@ func (s *st) checkState() {
 	}
 }
 
+// monitor: a want leaves a peer's want-list only through a message of that peer (cancel, full list, overflow),
+// its disconnect, or the acknowledgement of an envelope (checked in detail by checkAck)
+func (s *st) checkVanished(f []string) {
+	now, _ := s.e.VerifLedger()
+	for p, m := range s.prevLedger {
+		allowed := f[0] == "ack" || f[0] == "drain" ||
+			((f[0] == "msg" || f[0] == "disc") && len(f) > 1 && pid(vh.Atoi(f[1])) == p)
+		if allowed {
+			continue
+		}
+		for c := range m {
+			if _, ok := now[p][c]; !ok {
+				s.o.Fail("want-vanished-from-ledger", "op %q removed want %d from the want-list of %s", f[0], s.idx[c], p)
+			}
+		}
+	}
+	s.prevLedger = now
+}
+
 type sent struct{ blocks, haves, donthaves []int }
 
 func (s *st) envContents(env *vd.Envelope) sent {
@@ -495,8 +623,34 @@ func (s *st) pop() (int, *vd.Envelope) {
 	return id, env
 }
 
+// monitor for MessageSent: the acknowledgement of an envelope may take a want off the peer's want-list only if
+// the envelope answered it: it carried the block, or it carried a HAVE and the want is (still) a want-have.
+func (s *st) checkAck(oe outEnv, before map[cid.Cid]vd.VerifEntry) {
+	after, _ := s.e.VerifLedger()
+	blocksSent, havesSent := map[cid.Cid]bool{}, map[cid.Cid]bool{}
+	for _, b := range oe.env.Message.Blocks() {
+		blocksSent[b.Cid()] = true
+	}
+	for _, c := range oe.env.Message.Haves() {
+		havesSent[c] = true
+	}
+	for c, en := range before {
+		if _, still := after[oe.env.Peer][c]; still {
+			continue
+		}
+		if blocksSent[c] || (havesSent[c] && en.WantType == pb.Message_Wantlist_Have) {
+			continue
+		}
+		s.o.Fail("messagesent-dropped-unanswered-want", "ack of envelope %d took want %d (%s) of %s off the want-list although the envelope did not answer it (HAVE sent: %v)",
+			oe.id, s.idx[c], tstr(en.WantType), oe.env.Peer, havesSent[c])
+	}
+}
+
 func (s *st) ack(k int) {
 	oe := s.outst[k]
+	ps, _ := s.e.VerifLedger()
+	before := ps[oe.env.Peer]
+	defer s.checkAck(oe, before)
 	s.outst = append(s.outst[:k:k], s.outst[k+1:]...)
 	s.e.MessageSent(oe.env.Peer, oe.env.Message)
 	oe.env.Sent()
@@ -824,6 +978,7 @@ func exec(c vh.Case, o *vh.Out) {
 			res = "bad-op"
 		}
 		s.checkState()
+		s.checkVanished(f)
 		o.Emit("%s%s", res, s.digest())
 	}
 	if s.sentAnyNT && (s.overflowed || s.fullCleared) {
